@@ -6,10 +6,10 @@ cd $WT || exit 1
 echo "== demo WITH change"; cargo test -p tevec --test seed_demo --offline $FEAT 2>&1 | grep -E "^test result|FAILED|error\[" | head -3
 mv tevec/tests/seed_demo.rs /tmp/seed_demo_$ID.rs
 echo "== suite WITH change"; cargo test --workspace --offline 2>&1 | grep -E "^test result" | awk '{p+=$4; f+=$6} END{print "passed",p,"failed",f}'
-git stash -q
+git apply -R $D/patch.diff || { echo "cannot revert the patch in the worktree"; }
 mkdir -p tevec/tests; cp /tmp/seed_demo_$ID.rs tevec/tests/seed_demo.rs
 echo "== demo WITHOUT change"; cargo test -p tevec --test seed_demo --offline $FEAT 2>&1 | grep -E "^test result|FAILED|error\[" | head -3
-rm tevec/tests/seed_demo.rs; git stash pop -q; cp /tmp/seed_demo_$ID.rs tevec/tests/seed_demo.rs
+rm tevec/tests/seed_demo.rs; git apply $D/patch.diff; cp /tmp/seed_demo_$ID.rs tevec/tests/seed_demo.rs
 cd /repo; git apply --check $D/patch.diff 2>&1 | head -2 && git apply $D/patch.diff
 echo "== check $P against patched /repo"; cd /verif; ./check $P 2>&1 | grep -E "^VIOLATION|^OK|^KNOWN" | head -4
 git -C /repo checkout -- .; git -C /repo status --short | head -2
